@@ -70,3 +70,21 @@ PROPS["C03"] = dict(
         "the sparse *compressor* is not modelled; its output is checked against the proved decoder per run"],
     assumptions=["Codec round trip dec(enc d) = d for third-party codecs (sampled)"],
 )
+
+PROPS["C08"] = dict(
+    rule=("4 small archives (overlapping file sets, one sharing everything with another, one name in no archive) and "
+          "priorities {-1,0,0,5}: a 1/7 (quick) or complete (thorough) sweep of all 841 two-operation histories over "
+          "{add, remove, set-priority, clear} plus random histories of 3..12 operations; after every operation the chain "
+          "order, find/read/contains for every name (case- and slash-varied spellings) and the listing are compared with "
+          "the model and with independent bookkeeping; parallel vs sequential construction; COPY and BSD0 patches built by "
+          "a harness-side encoder, each applied to the right base, a wrong base, and with every header byte and a sample "
+          "of payload bytes altered. non-trivial = a lookup decided among >= 2 archives holding the name, or a well-formed "
+          "patch; distinct by FNV hash of history+name / patch bytes"),
+    trusted_base=COMMON_TB + [
+        "an archive 'contains' a name iff its listing does (what rebuild_file_map consults); archives without a listfile "
+        "are outside the harness' world", "MD5 is abstract in the theorems; the executable model uses Spec.Md5 (RFC 1321), "
+        "validated against the md-5 crate through the patch cases",
+        "patch files reached through a chain (PATCH_FILE-flagged entries) are not generated: the builder cannot produce "
+        "them; apply_patch is driven directly"],
+    assumptions=["set_priority counts as a new insertion for tie-breaking (the weaker reading of 'earliest added wins ties')"],
+)
